@@ -685,12 +685,22 @@ func init() {
 	register(ruleDef{ID: "R11.13", Prop: "C11", Tier: "quick", Floor: 3,
 		Title: "repo before node: no function acquires a repo's lock while it holds the lock of one of the repo's nodes (serialisation of the repo, commit and the node log take the repo's lock first and then each node's; the opposite order deadlocks against them)",
 		Fn:    ruleRepoNodeLockOrder})
+	register(ruleDef{ID: "R11.21", Prop: "C11", Tier: "quick", Floor: 2,
+		Title: "DAG before node: no function acquires the lock of a repo's DAG (read or write) while it holds the lock of one of the nodes; the serialisation of the DAG on every save takes the DAG's lock and then each node's",
+		Fn:    func(r *Run) { ruleOuterBeforeNode(r, "dagT", "dag", 5, 1) }})
+	register(ruleDef{ID: "R20.31", Prop: "C20", Tier: "quick", Floor: 2,
+		Title: "no lock-order inversion between a repo's DAG and its nodes (shared with R11.21)",
+		Fn:    func(r *Run) { ruleOuterBeforeNode(r, "dagT", "dag", 5, 1) }})
 	register(ruleDef{ID: "R20.22", Prop: "C20", Tier: "quick", Floor: 3,
 		Title: "no lock-order inversion between a repo and its nodes (shared with R11.13): two requests that take the two locks in opposite orders wedge each other and every later request on the repo",
 		Fn:    ruleRepoNodeLockOrder})
 }
 
-func ruleRepoNodeLockOrder(r *Run) {
+func ruleRepoNodeLockOrder(r *Run) { ruleOuterBeforeNode(r, "repoT", "repo", 10, 3) }
+
+// ruleOuterBeforeNode: the lock of the enclosing object (a repo, a repo's DAG) is never acquired
+// while the lock of one of its nodes is held.
+func ruleOuterBeforeNode(r *Run, outerType, outerName string, minFuncs, minNested int) {
 	w := r.W
 	n, nested := 0, 0
 	baseType := func(in ssa.Instruction) string {
@@ -722,7 +732,7 @@ func ruleRepoNodeLockOrder(r *Run) {
 				switch baseType(in) {
 				case "nodeT":
 					nodeKeys[op.key] = true
-				case "repoT":
+				case outerType:
 					repoAcq = append(repoAcq, in)
 				}
 			}
@@ -744,11 +754,11 @@ func ruleRepoNodeLockOrder(r *Run) {
 					bad = true
 				}
 			}
-			r.check(!bad, fmt.Sprintf("%s:repo-lock#%d:not-under-a-node-lock", fname(f), k), "no node lock is held when the repo's lock is taken",
-				"the repo's lock is acquired while a node's lock is held; serialising the repo (GET repo info, every save), commit and the node log take them in the order repo → node, so the two requests can block each other for ever", w.pos(acq.Pos()))
+			r.check(!bad, fmt.Sprintf("%s:%s-lock#%d:not-under-a-node-lock", fname(f), outerName, k), "no node lock is held when the "+outerName+"'s lock is taken",
+				"the "+outerName+"'s lock is acquired while a node's lock is held; serialising the repo (GET repo info, every save), commit and the node log take them in the order "+outerName+" → node, so the two requests can block each other for ever", w.pos(acq.Pos()))
 		}
 	}
-	r.check(n >= 10 && nested >= 3, "datastore:repo-lock-acquisitions", fmt.Sprintf("%d functions lock a repo, %d acquisitions in functions that also lock a node", n, nested), "too few: rule needs review", "-")
+	r.check(n >= minFuncs && nested >= minNested, "datastore:"+outerName+"-lock-acquisitions", fmt.Sprintf("%d functions lock a %s, %d acquisitions in functions that also lock a node", n, outerName, nested), "too few: rule needs review", "-")
 }
 
 // ---------------------------------------------------------------------------------------------
